@@ -136,6 +136,10 @@ class Problem:
             pos = Lc[Lc > 0]
             if len(pos):
                 allowance = allowance / float(np.min(pos)) if np.min(pos) < 1 else allowance
+            if not self.pen.convex:
+                # non-convex proxes are minimised numerically (golden section): accuracy
+                # about sqrt(eps) relative to the size of the coefficients
+                allowance += 1e-7 * (1.0 + float(np.max(np.abs(w), initial=0.0)))
         elif criterion == "grad":
             per = np.abs(g)
         else:
